@@ -68,6 +68,7 @@ Match ==
      LET p == Ev[l - 1].post IN
      /\ ((F("C03") \/ F("C09") \/ F("C13")) => OutAgrees(out, p.out))
      /\ gone = p.gone
+     /\ cx.on = p.ctx
      /\ (~gone =>
            /\ ((F("C03") \/ F("C09") \/ F("C02")) => rows = p.rows /\ tail = p.tail)
            /\ ((F("C02") \/ F("C09")) => descr = DescrOf(p.descr))
